@@ -1162,3 +1162,11 @@ Theorem backwards_switch_refuted :
   get_meta_result ex_backwards_view = GOk (M 9) /\
   get_meta_result (vol_view (set_meta (fs_of_view ex_backwards_view) (M 5))) = GOk (M 7).
 Proof. split; reflexivity. Qed.
+
+Theorem crash_image_restarts_clean s A B K v :
+  good s A B K -> (fd_num A <= fd_num B)%Z -> (forall k, In k K -> ~ famc k) -> crash_image s v ->
+  (exists i, clean (fs_of_view v) A B K i) \/ (exists i, clean (fs_of_view v) B B K i).
+Proof.
+  intros G Hle Hnf Hv.
+  destruct (good_cleanv s A B K v G Hle Hnf Hv) as [H|H]; [left|right]; exact (restart_clean _ _ _ _ H).
+Qed.
